@@ -60,7 +60,10 @@ impl tower::Service<Request<Bytes>> for HoldSvc {
         let hold: u64 = req.headers().get("x-hold-ms").and_then(|v| v.parse().ok()).unwrap_or(0);
         let busy: u64 = req.headers().get("x-busy-ms").and_then(|v| v.parse().ok()).unwrap_or(0);
         self.started.fetch_add(1, Ordering::SeqCst);
+        // (as services usually do, the handler keeps a clone of its service for as long as it runs)
+        let me = self.clone();
         Box::pin(async move {
+            let _me = me;
             // a CPU-bound stretch: the task running this handler occupies its worker thread
             hold_current_task(Duration::from_millis(hold));
             // ... or it is busy on a resource that is always ready and yields only when tokio's
@@ -97,6 +100,12 @@ fn run(input: RunInput) -> ScenFuture {
         let burst = w.flag("connect_burst_fills_the_mailbox", 0.3) && mode <= 1;
         if burst {
             cfg.connection_manager_channel_capacity = Some(w.param("mailbox_capacity", 1, 3) as usize);
+        }
+        // request deadlines that never expire within a run: settings of another feature, nothing
+        // about a shutdown may depend on whether a deadline applies to the requests in flight
+        if w.flag("request_deadlines_configured", 0.4) {
+            cfg.inbound_request_timeout_ms = Some(3_600_000);
+            cfg.outbound_request_timeout_ms = Some(3_600_000);
         }
         cfg.connectivity_check_interval_ms = Some(100);
         cfg.connection_backoff_ms = Some(100);
@@ -240,7 +249,33 @@ fn run(input: RunInput) -> ScenFuture {
         } else {
             None
         };
-        sleep_ms(r.gen_range(0..200)).await;
+        // the application may shut down the very moment it is told about a new peer (a subscriber
+        // that reacts to NewPeer): whatever the connection manager still has to do for that
+        // connection then - its connecting task to be joined, its handler to be started - happens
+        // under the shutdown
+        let on_new_peer = mode <= 1 && w.flag("shutdown_the_moment_a_new_peer_is_announced", 0.2);
+        let mut fresh_dialer = None;
+        if on_new_peer {
+            let n0 = net().unwrap();
+            let (mut rx, _) = n0.subscribe().unwrap();
+            let d = Arc::new(w.start_node(w.spec(10, cfg.clone()), Svc::echo(&w)).unwrap());
+            let d_id = d.peer_id;
+            let d2 = d.clone();
+            mix.push("fresh-connection");
+            track("inbound-dialer".into(), Box::pin(async move { d2.net.connect(s_addr).await.map(|_| ()).map_err(|e| format!("{e:#}")) }));
+            let _ = tokio::time::timeout(Duration::from_secs(3), async {
+                while let Ok(ev) = rx.recv().await {
+                    if matches!(ev, PeerEvent::NewPeer(p) if p == d_id) {
+                        break;
+                    }
+                }
+            })
+            .await;
+            w.probe("shutdown-the-moment-a-new-peer-is-announced");
+            fresh_dialer = Some(d);
+        } else {
+            sleep_ms(r.gen_range(0..200)).await;
+        }
         w.mark_overlap();
         let mixdesc = mix.join("+");
         let t_shutdown = w.now_ns();
@@ -520,7 +555,7 @@ fn run(input: RunInput) -> ScenFuture {
             "pending": pending.lock().unwrap().iter().map(|(n, r, _)| format!("{n}:{}", match r { None => "pending", Some(Ok(())) => "ok", Some(Err(_)) => "err" })).collect::<Vec<_>>()}));
         let out = w.finish();
         drop(held_peer);
-        drop((peers, late_dialer));
+        drop((peers, late_dialer, fresh_dialer));
         out
     })
 }
